@@ -65,6 +65,22 @@ one_value(const struct cfg *c, uint64_t bits)
 {
     const struct rt_reg *r = &inst.d.reg[1];
     RegisterValue v = { .type = (RegisterType)c->type, .value = rt_from_bits(c->type, bits) };
+    /* a RegisterValue that was used for a wider type before: two times in three the octets of the union behind the
+     * member in use are not zero */
+    static unsigned dirt;
+    if (++dirt % 3) {
+        RegisterValueU d;
+        memset(&d, dirt % 3 == 1 ? 0xff : 0xa5, sizeof d);
+        switch (c->type) {
+        case REG_TYPE_UINT16: d.u16 = v.value.u16; break;
+        case REG_TYPE_UINT32: d.u32 = v.value.u32; break;
+        case REG_TYPE_SINT16: d.s16 = v.value.s16; break;
+        case REG_TYPE_SINT32: d.s32 = v.value.s32; break;
+        case REG_TYPE_FLOAT32: d.f32 = v.value.f32; break;
+        default: d = v.value; break;
+        }
+        v.value = d;
+    }
     int finite = rt_bits_valid(c->type, bits);
     int accept = finite && rt_satisfies(r, v.value, 0);
     unsigned char *mw = rt_model_word(&inst, r->addr);
